@@ -1154,6 +1154,25 @@ func runCrash(c *corr.Ctx) error {
 		}
 		return nil
 	}
+	// scripted regression workloads, run before the generated ones
+	big := func(k int) wlEntry { return wlEntry{Key: k, Size: 40} }
+	scripts := []*wlConfig{
+		// a transaction crashes between its value-log write (+ rotation, head edit) and the WAL:
+		// the sealed file keeps a record no logged record refers to; GC must not write it back
+		{Txn: true, Sync: true, Buckets: 1, MemTable: 1 << 20, VlogSize: 160, Threshold: 32, ManRewr: 64 << 20,
+			Steps: []wlStep{{Kind: "batch", Entries: []wlEntry{big(1)}}, {Kind: "batch", Entries: []wlEntry{big(1), big(2), big(3)}}}},
+		// plain API: two values of one key in a value-log file that is then sealed; GC must not
+		// write the superseded one back over the newer one (all plain records share one version)
+		{Txn: false, Sync: false, Buckets: 1, MemTable: 1 << 20, VlogSize: 160, Threshold: 32, ManRewr: 64 << 20,
+			Steps: []wlStep{{Kind: "batch", Entries: []wlEntry{big(1)}}, {Kind: "batch", Entries: []wlEntry{big(1)}},
+				{Kind: "rot"}, {Kind: "batch", Entries: []wlEntry{big(2)}}, {Kind: "flush"}, {Kind: "batch", Entries: []wlEntry{{Key: 2, Del: true}}}}},
+	}
+	for i, cfg := range scripts {
+		c.Count("workload_scripted")
+		if err := runWorkload(c, cfg, fmt.Sprintf("script%d", i)); err != nil {
+			return fmt.Errorf("scripted workload %d: %w", i, err)
+		}
+	}
 	n := c.Scale(3, 60)
 	for i := 0; i < n; i++ {
 		txn := i%3 != 1
